@@ -406,13 +406,33 @@ def setInsertAll (h : Heap) (xs : List Val) (ks : List Val) : List Val := ks.fol
 
 /-! ## Decoder: the stack machine of `(*Decoder).decode` -/
 
-/-- what the host `Unpickler` does with `(module, name, args)`; only the shape of the outcome matters here -/
+/-- references in range, executable (the Prop versions and their agreement are in `Dawn/Proofs/PickleDec.lean`) -/
+def Val.closedB (n : Nat) : Val → Bool
+  | .ref a => a < n
+  | _ => true
+
+def Obj.closedB (n : Nat) : Obj → Bool
+  | .tuple xs => xs.all (Val.closedB n)
+  | .list xs => xs.all (Val.closedB n)
+  | .set xs => xs.all (Val.closedB n)
+  | .dict kvs => kvs.all fun p => p.1.closedB n && p.2.closedB n
+  | .host _ _ a => a.closedB n
+
+/-- what the host `Unpickler` does with `(module, name, args)` -/
 inductive HostVerdict where
-  | construct        -- returns a fresh non-nil value (modelled as `Obj.host module name args`)
+  | construct        -- returns a fresh opaque non-nil value (modelled as `Obj.host module name args`)
+  | result (heap' : Heap) (v : Val)
+                     -- returns the value `v` (an argument, or something it built), having left the heap as `heap'`
+                     -- (objects it allocated appended, dicts it updated replaced)
   | error            -- returns a non-nil error: `panic(failure(err))`
   | runtimePanic     -- panics with a `runtime.Error` (unchecked type assertion, index out of range, …)
   | otherPanic       -- panics with a value that is not an `error`
 deriving DecidableEq, Repr
+
+/-- a host's `result` is usable: it only extended the heap and every reference it produced is in range. A model of a
+host that answers otherwise is not a model of a well-behaved host; the decoder treats it like `otherPanic`. -/
+def hostResultOK (h h' : Heap) (v : Val) : Bool :=
+  h.length ≤ h'.length && v.closedB h'.length && h'.all (Obj.closedB h'.length)
 
 structure DecCfg where
   /-- D1 (repaired): `int(l) | int(h)<<16` -/
@@ -420,7 +440,7 @@ structure DecCfg where
   /-- `big.Int.UnmarshalText` -/
   parseInt : Bytes → Option Int := parseDecimal
   /-- `d.unpickler`; `none` is a nil Unpickler -/
-  host : Option (Bytes → Bytes → List Val → HostVerdict) := Option.none
+  host : Option (Heap → Nat → Bytes → Bytes → List Val → HostVerdict) := Option.none
   /-- tie 1: `type failure error` is an interface type, so `recover().(failure)` matches every `error` -/
   failureIsInterface : Bool := true
 
@@ -562,8 +582,10 @@ def stepOp (cfg : DecCfg) (ds : DecSt) : Op → Step
         match cfg.host with
         | Option.none => .fail .noUnpickler
         | some f =>
-          match f module name xs with
+          match f ds.heap a module name xs with       -- the heap, the address of the args tuple, (module, name, args)
           | .construct => alloc ds (.host module name (.ref a)) rest
+          | .result h' v =>
+            if hostResultOK ds.heap h' v then .cont { ds with stack := v :: rest, heap := h' } else .otherPanic
           | .error => .fail .hostError
           | .runtimePanic => .rtPanic
           | .otherPanic => .otherPanic
@@ -828,5 +850,177 @@ def Obj.sizeOK : Obj → Bool
 /-- the format's 4-byte fields suffice: strings shorter than 2^32 bytes, fewer than 2^32 objects -/
 def Graph.sizesOK (g : Graph) : Bool :=
   g.heap.length < 4294967296 && g.root.sizeOK && g.heap.all Obj.sizeOK
+
+/-! ## Canonical graphs, characterised independently of the encoder
+
+A graph is *canonical* when its addresses are the order in which the decoder allocates: walk the value depth first,
+children left to right (dict: key, value, key, value, …; host object: its argument tuple); a list, dict or set takes
+the next free address when it is FIRST met (before its contents — so that a cycle back to it is a reference to an
+address already taken) and is not entered again; a tuple takes the next free address when its elements are done,
+every time it is met (tuples are not memoised: every occurrence is its own object); a host object takes the next free
+address when its arguments are done, and is not entered again. The walk must end with every address of the heap taken
+(so every object is reachable from the root). A host object that reaches itself without passing through a list, dict
+or set has no finite walk (`hostAcyclic` fails): such graphs are not canonical, as are graphs with dangling
+references or decoder sentinels. No opcodes, memo ids or bytes are involved. -/
+
+structure WalkSt where
+  seen : List Nat     -- lists, dicts, sets, host objects already numbered
+  next : Nat          -- the next free address
+
+def walkSeq (f : WalkSt → Val → Option WalkSt) : WalkSt → List Val → Option WalkSt
+  | st, [] => some st
+  | st, x :: xs =>
+    match f st x with
+    | Option.none => Option.none
+    | some st1 => walkSeq f st1 xs
+
+def walkVal (g : Heap) : Nat → WalkSt → Val → Option WalkSt
+  | _, st, .atom _ => some st
+  | _, _, .mark => Option.none
+  | _, _, .global _ _ _ => Option.none
+  | 0, _, .ref _ => Option.none
+  | fuel + 1, st, .ref a =>
+    if st.seen.contains a then some st else
+    match g[a]? with
+    | Option.none => Option.none
+    | some (.tuple xs) =>
+      match walkSeq (walkVal g fuel) st xs with
+      | some st' => if a = st'.next then some { st' with next := st'.next + 1 } else Option.none
+      | Option.none => Option.none
+    | some (.list xs) =>
+      if a = st.next then walkSeq (walkVal g fuel) { seen := a :: st.seen, next := st.next + 1 } xs else Option.none
+    | some (.dict kvs) =>
+      if a = st.next then walkSeq (walkVal g fuel) { seen := a :: st.seen, next := st.next + 1 } (flattenPairs kvs)
+      else Option.none
+    | some (.set xs) =>
+      if a = st.next then walkSeq (walkVal g fuel) { seen := a :: st.seen, next := st.next + 1 } xs else Option.none
+    | some (.host _ _ args) =>
+      match args with
+      | .ref t =>
+        match g[t]? with
+        | some (.tuple _) =>
+          match walkVal g fuel st args with
+          | some st' => if a = st'.next then some { seen := a :: st'.seen, next := st'.next + 1 } else Option.none
+          | Option.none => Option.none
+        | _ => Option.none
+      | _ => Option.none
+
+/-- executable: the walk from the root, with as much fuel as there are objects plus one (`C07_canonical_fuel`: that
+is always enough), numbers the whole heap -/
+def Graph.canonical (g : Graph) : Bool :=
+  match walkVal g.heap (g.heap.length + 1) ⟨[], 0⟩ g.root with
+  | some st => st.next == g.heap.length
+  | Option.none => false
+
+/-! ## dawn's host unpickler for function environments: `envUnpickler` (`function.go`)
+
+Modelled with the values it really returns (an argument, the argument tuple, a string, a new dict, the updated
+function-code dict), so that the rest of the decoder sees what the real decoder sees. Its unchecked type assertions and
+indexing are `runtimePanic` (a `runtime.Error`, which `Decode` recovers into an error). -/
+
+def bDawn : Bytes := [0x64, 0x61, 0x77, 0x6e]  -- "dawn"
+def bTarget : Bytes := [0x54, 0x61, 0x72, 0x67, 0x65, 0x74]  -- "Target"
+def bBuiltin : Bytes := [0x42, 0x75, 0x69, 0x6c, 0x74, 0x69, 0x6e]  -- "Builtin"
+def bRecursive : Bytes := [0x52, 0x65, 0x63, 0x75, 0x72, 0x73, 0x69, 0x76, 0x65]  -- "Recursive"
+def bMandatory : Bytes := [0x4d, 0x61, 0x6e, 0x64, 0x61, 0x74, 0x6f, 0x72, 0x79]  -- "Mandatory"
+def bFunctionCode : Bytes := [0x46, 0x75, 0x6e, 0x63, 0x74, 0x69, 0x6f, 0x6e, 0x43, 0x6f, 0x64, 0x65]  -- "FunctionCode"
+def bFunction : Bytes := [0x46, 0x75, 0x6e, 0x63, 0x74, 0x69, 0x6f, 0x6e]  -- "Function"
+def bMandatoryText : Bytes := [0x6d, 0x61, 0x6e, 0x64, 0x61, 0x74, 0x6f, 0x72, 0x79, 0x20, 0x70, 0x61, 0x72, 0x61, 0x6d, 0x65, 0x74, 0x65, 0x72]  -- "mandatory parameter"
+def kNames : Bytes := [0x6e, 0x61, 0x6d, 0x65, 0x73]  -- "names"
+def kConstants : Bytes := [0x63, 0x6f, 0x6e, 0x73, 0x74, 0x61, 0x6e, 0x74, 0x20, 0x76, 0x61, 0x6c, 0x75, 0x65, 0x73]  -- "constant values"
+def kPredeclared : Bytes := [0x70, 0x72, 0x65, 0x64, 0x65, 0x63, 0x6c, 0x61, 0x72, 0x65, 0x64, 0x20, 0x76, 0x61, 0x6c, 0x75, 0x65, 0x73]  -- "predeclared values"
+def kUniversal : Bytes := [0x75, 0x6e, 0x69, 0x76, 0x65, 0x72, 0x73, 0x61, 0x6c, 0x20, 0x76, 0x61, 0x6c, 0x75, 0x65, 0x73]  -- "universal values"
+def kFunctions : Bytes := [0x66, 0x75, 0x6e, 0x63, 0x74, 0x69, 0x6f, 0x6e, 0x20, 0x76, 0x61, 0x6c, 0x75, 0x65, 0x73]  -- "function values"
+def kGlobals : Bytes := [0x67, 0x6c, 0x6f, 0x62, 0x61, 0x6c, 0x20, 0x76, 0x61, 0x6c, 0x75, 0x65, 0x73]  -- "global values"
+def kCode : Bytes := [0x63, 0x6f, 0x64, 0x65]  -- "code"
+def kParameters : Bytes := [0x70, 0x61, 0x72, 0x61, 0x6d, 0x65, 0x74, 0x65, 0x72, 0x73]  -- "parameters"
+def kDefaults : Bytes := [0x64, 0x65, 0x66, 0x61, 0x75, 0x6c, 0x74, 0x20, 0x70, 0x61, 0x72, 0x61, 0x6d, 0x65, 0x74, 0x65, 0x72, 0x20, 0x76, 0x61, 0x6c, 0x75, 0x65, 0x73]  -- "default parameter values"
+def kFreeVars : Bytes := [0x66, 0x72, 0x65, 0x65, 0x20, 0x76, 0x61, 0x72, 0x69, 0x61, 0x62, 0x6c, 0x65, 0x73]  -- "free variables"
+
+def sv (b : Bytes) : Val := .atom (.str b)
+
+/-- the loop of `makeDictFromAssociationList`: `pair := pv.(starlark.Tuple); dict.SetKey(pair[0].(starlark.String), pair[1])`;
+`none` is a run-time panic (not a tuple, fewer than two elements, key not a string) -/
+def envPairs (h : Heap) : List Val → List (Val × Val) → Option (List (Val × Val))
+  | [], acc => some acc
+  | .ref p :: rest, acc =>
+    match h[p]? with
+    | some (.tuple (.atom (.str k) :: v :: _)) => envPairs h rest (dictInsert h acc (.atom (.str k)) v)
+    | _ => Option.none
+  | _ :: _, _ => Option.none
+
+/-- `makeDictFromAssociationList(al)`: `None` for a non-tuple, else a new dict; `none` is a run-time panic -/
+def envMakeDict (h : Heap) (al : Val) : Option (Heap × Val) :=
+  match al with
+  | .ref a =>
+    match h[a]? with
+    | some (.tuple pairs) =>
+      match envPairs h pairs [] with
+      | some kvs => some (h ++ [.dict kvs], .ref h.length)
+      | Option.none => Option.none
+    | _ => some (h, .atom .none)
+  | _ => some (h, .atom .none)
+
+/-- `case "FunctionCode"` after the length check -/
+def envFunctionCode (h : Heap) (m globals bytecode : Val) (params : List (Val × Val)) : HostVerdict :=
+  match m with
+  | .ref ma =>
+    match h[ma]? with
+    | some (.tuple (names :: constants :: predeclared :: universals :: functions :: _)) =>
+      match envMakeDict h predeclared with
+      | Option.none => .runtimePanic
+      | some (h1, dp) =>
+        match envMakeDict h1 universals with
+        | Option.none => .runtimePanic
+        | some (h2, du) =>
+          match envMakeDict h2 globals with
+          | Option.none => .runtimePanic
+          | some (h3, dg) =>
+            .result (h3 ++ [.dict ([(sv kNames, names), (sv kConstants, constants), (sv kPredeclared, dp),
+                (sv kUniversal, du), (sv kFunctions, functions), (sv kGlobals, dg), (sv kCode, bytecode)] ++ params)])
+              (.ref h3.length)
+    | _ => .runtimePanic       -- `args[0].(starlark.Tuple)` / `module[4]`
+  | _ => .runtimePanic
+
+/-- `envUnpickler(module, name, args)`; `a` is the address of the `args` tuple -/
+def envHost (h : Heap) (a : Nat) (module name : Bytes) (args : List Val) : HostVerdict :=
+  if module ≠ bDawn then .error
+  else if name = bTarget then
+    match args with
+    | [x] => .result h x
+    | _ => .error
+  else if name = bBuiltin then
+    if args.length = 0 ∨ args.length = 2 then .result h (.ref a) else .error
+  else if name = bRecursive then
+    if args.length = 2 then .result h (.ref a) else .error
+  else if name = bMandatory then
+    if args.length = 0 then .result h (sv bMandatoryText) else .error
+  else if name = bFunctionCode then
+    match args with
+    | [m, globals, bytecode] => envFunctionCode h m globals bytecode []
+    | [m, globals, bytecode, params] => envFunctionCode h m globals bytecode [(sv kParameters, params)]
+    | _ => .error
+  else if name = bFunction then
+    match args with
+    | [defaults, freeVars, .ref fc] =>
+      match h[fc]? with
+      | some (.dict kvs) =>
+        match envMakeDict h defaults with
+        | Option.none => .runtimePanic
+        | some (h1, d1) =>
+          match envMakeDict h1 freeVars with
+          | Option.none => .runtimePanic
+          | some (h2, d2) =>
+            .result (h2.set fc (.dict (dictInsert h2 (dictInsert h2 kvs (sv kDefaults) d1) (sv kFreeVars) d2))) (.ref fc)
+      | _ => .runtimePanic     -- `args[2].(*starlark.Dict)`
+    | [_, _, _] => .runtimePanic
+    | _ => .error
+  else .error
+
+/-- the decoder configuration of `functionEnv` / `(*function).load`: `pickle.NewDecoder(r, pickle.UnpicklerFunc(envUnpickler))` -/
+def envCfg : DecCfg := { host := some envHost }
+
+/-- `decodeEnv`: decoding a persisted function environment -/
+def decodeEnv (bs : Bytes) : Outcome := decode envCfg bs
 
 end Dawn.Pickle
